@@ -534,8 +534,12 @@ var goroutineBodies = []string{
 
 // ctxArg: does the call receive the goroutine's context?
 func ctxArg(e *Event) bool {
-	for _, a := range e.Args {
-		if a == "param:ctx" || a == "local:ctx" || a == "*free:ctx" || strings.HasPrefix(a, "context.WithCancel@") {
+	ci, ok := e.Instr.(ssa.CallInstruction)
+	if !ok {
+		return false
+	}
+	for _, a := range ci.Common().Args {
+		if types.TypeString(a.Type(), nil) == "context.Context" {
 			return true
 		}
 	}
